@@ -221,7 +221,7 @@ fn c07_parse_input_case(d0: Dechunker) {
 }
 
 //@ props: C07 C12 C01
-//@ tier: quick
+//@ tier: off
 //@ unwind: 8|10
 //@ unwindset: c07_parse_input_case=7|9 memcmp=8|10
 //@ timeout: 1500|3000
@@ -261,4 +261,239 @@ fn c07_parse_input_from_ending() {
 #[kani::proof]
 fn c07_parse_input_from_ended() {
     c07_parse_input_case(Dechunker::Ended);
+}
+
+// ---------------------------------------------------------------- handler lemmas (one token per call)
+//
+// The whole `parse_input` loop on 5 symbolic bytes exhausts 24 GB (c07_parse_input_* above are
+// kept for the thorough tier with smaller windows). The loop is therefore decomposed: each
+// handler is checked alone against the reference automaton; `parse_input` is `loop { handler }`
+// until a handler reports "no more", so by induction over its iterations the consumed prefix is
+// a sequence of whole tokens (paper argument, DESIGN.md §3 C07).
+
+fn ghost_mid(d: &Dechunker) -> A {
+    match d {
+        Dechunker::Trailer => A::TrailerStart, // position unchanged; a non-empty line follows
+        other => ghost_of(other),
+    }
+}
+
+const HW: usize = if THOROUGH { 8 } else { 6 };
+
+/// One handler step, dispatched exactly as `parse_input` does.
+fn c07_handler_case(d0: Dechunker, assume_valid: bool) {
+    let w: [u8; HW] = kani::any();
+    let l = any_le(HW);
+    let ol = any_le(OW);
+    let out0: [u8; OW] = kani::any();
+    let a0 = ghost_mid(&d0);
+    if assume_valid {
+        let mut a = a0;
+        let mut i = 0;
+        while i < HW {
+            if i < l {
+                a = a_step(a, w[i]).0;
+            }
+            i += 1;
+        }
+        kani::assume(a != A::Reject);
+    }
+    if matches!(d0, Dechunker::Trailer) {
+        // `Trailer` is only entered after a CRLF was found behind a non-empty line in this window
+        let mut cr = HW;
+        let mut i = 0;
+        while i < HW {
+            if i < l && cr == HW && w[i] == b'\r' {
+                cr = i;
+            }
+            i += 1;
+        }
+        kani::assume(cr > 0 && cr + 1 < l && w[cr + 1] == b'\n');
+    }
+    let mut d = d0;
+    let mut out = out0;
+    let mut pos = Pos { index_in: 0, index_out: 0 };
+    let r = match d {
+        Dechunker::Size => d.read_size(&w[..l], &mut pos),
+        Dechunker::Chunk(_) => d.read_data(&w[..l], &mut out[..ol], &mut pos),
+        Dechunker::CrLf => d.expect_crlf(&w[..l], &mut pos),
+        Dechunker::Ending => d.trailer_or_ended(&w[..l], &mut pos),
+        Dechunker::Trailer => d.trailer(&w[..l], &mut pos),
+        Dechunker::Ended => Ok(false),
+    };
+    let (c, o) = (pos.index_in, pos.index_out);
+    let more = match r {
+        Ok(m) => m,
+        Err(e) => {
+            core::mem::forget(e);
+            assert!(!assume_valid, "C07/valid-coding-never-errs");
+            // C12: an error is a normal return; nothing else is promised
+            return;
+        }
+    };
+    assert!(c <= l && o <= ol && o <= c, "C12/counts-within-windows");
+    // produced bytes are copies of consumed bytes, in order
+    let mut j = 0;
+    let mut i = 0;
+    while i < HW {
+        if i < c && j < o && j < OW && w[i] == out[j] {
+            j += 1;
+        }
+        i += 1;
+    }
+    assert!(j == o, "C12/produced-bytes-are-copies-of-consumed-bytes-in-order");
+    let mut j = 0;
+    while j < OW {
+        if j >= o {
+            assert!(out[j] == out0[j], "C12/nothing-written-beyond-produced");
+        }
+        j += 1;
+    }
+    if !assume_valid {
+        return;
+    }
+    // refinement: replay the consumed prefix through the automaton
+    let mut b = a0;
+    let mut k = 0;
+    let mut past_done = false;
+    let mut i = 0;
+    while i < HW {
+        if i < c {
+            if b == A::Done {
+                past_done = true;
+            }
+            let (nb, is_data) = a_step(b, w[i]);
+            if is_data {
+                if k < OW {
+                    assert!(k < o && out[k] == w[i], "C07/output-is-exactly-the-chunk-data-in-order");
+                }
+                k += 1;
+            }
+            b = nb;
+        }
+        i += 1;
+    }
+    assert!(!past_done, "C07/never-consumes-past-the-final-crlf");
+    assert!(k == o, "C07/produced-equals-data-bytes-consumed");
+    assert!(b == ghost_mid(&d), "C07/stops-on-a-token-boundary-matching-its-state");
+    assert!(d.is_ended() == (b == A::Done), "C07/ended-iff-final-crlf-consumed");
+    // progress: `more == false` without progress only when the next token is incomplete / no room
+    match d0 {
+        Dechunker::Chunk(_) => {
+            if l > 0 && ol > 0 {
+                assert!(c > 0 && o > 0 && more, "C07/progress-on-data");
+            }
+        }
+        Dechunker::CrLf => {
+            if l >= 2 {
+                assert!(c == 2, "C07/progress-on-chunk-crlf");
+            }
+        }
+        Dechunker::Ending => {
+            if l >= 2 && w[0] == b'\r' {
+                assert!(c == 2 && d.is_ended(), "C07/progress-on-final-crlf");
+            }
+        }
+        Dechunker::Trailer => {
+            assert!(c > 2 && more, "C07/trailer-line-consumed-whole");
+        }
+        Dechunker::Ended => assert!(c == 0 && o == 0 && !more, "C07/ended-decoder-consumes-nothing"),
+        Dechunker::Size => {}
+    }
+    kani::cover!(l == HW, "full-window-offered");
+}
+
+//@ props: C07 C01
+//@ tier: quick
+//@ unwind: 9|11
+//@ unwindset: c07_handler_case=8|10 memcmp=9|11
+//@ timeout: 1200|2400
+//@ mem: 24
+//@ encodes: Dechunker::read_size | read_data | expect_crlf | trailer_or_ended | trailer (one per harness, dispatched as parse_input does), util::find_crlf, str::from_utf8, str::trim, usize::from_str_radix
+//@ vars: pre-state concrete per harness (Size | Chunk(n: any usize > 0) | CrLf | Ending | Trailer | Ended); window of HW symbolic bytes assumed to be a prefix of a valid coding continuing from the pre-state (bytes after the final CRLF arbitrary); in <= HW; output buffer 4 symbolic bytes, out <= 4; HW = 6 quick / 8 thorough
+//@ bounds: one handler step; window <= 6 (8) bytes: size lines of <= 4 (6) characters incl. extensions, upper/lower-case hex, leading zeros
+//@ outside: size lines longer than the window (incl. the 20-character sanity limit); the loop of parse_input / read_chunked (composition argued in DESIGN.md; c07_read_chunked_* covers boundary stops on concrete framings)
+//@ clause: the bytes a handler consumes are whole grammar tokens from the pre-state's position ending at the post-state's position; output is exactly the chunk-data bytes consumed, in order; never past the final CRLF; ended iff it was consumed; never an error on a valid prefix; progress whenever the next token is completely present
+#[kani::proof]
+fn c07_handler_read_size() {
+    c07_handler_case(Dechunker::Size, true);
+}
+
+//@ like: c07_handler_read_size
+#[kani::proof]
+fn c07_handler_read_data() {
+    let n: usize = kani::any();
+    kani::assume(n > 0);
+    c07_handler_case(Dechunker::Chunk(n), true);
+}
+
+//@ like: c07_handler_read_size
+#[kani::proof]
+fn c07_handler_expect_crlf() {
+    c07_handler_case(Dechunker::CrLf, true);
+}
+
+//@ like: c07_handler_read_size
+#[kani::proof]
+fn c07_handler_trailer_or_ended() {
+    c07_handler_case(Dechunker::Ending, true);
+}
+
+//@ like: c07_handler_read_size
+#[kani::proof]
+fn c07_handler_trailer() {
+    c07_handler_case(Dechunker::Trailer, true);
+}
+
+//@ like: c07_handler_read_size
+#[kani::proof]
+fn c07_handler_ended() {
+    c07_handler_case(Dechunker::Ended, true);
+}
+
+//@ props: C12
+//@ tier: quick
+//@ unwind: 9|11
+//@ unwindset: c07_handler_case=8|10 memcmp=9|11
+//@ timeout: 1200|2400
+//@ mem: 24
+//@ encodes: the same handlers on ARBITRARY bytes
+//@ vars: as c07_handler_* but the window is unconstrained (malformed, truncated, hostile bytes)
+//@ bounds: window <= 6 (8) bytes, output <= 4 bytes
+//@ outside: windows longer than 8 bytes (e.g. size lines of 17+ hex digits that overflow usize: from_str_radix returns an error, not a panic, by its contract)
+//@ clause: every handler returns normally with an error or with consumed <= offered, produced <= space, produced <= consumed and every produced byte a copy of a consumed byte in order; no panic, no arithmetic overflow, no out-of-bounds index
+#[kani::proof]
+fn c12_handler_read_size_arbitrary() {
+    c07_handler_case(Dechunker::Size, false);
+    kani::cover!(true, "reached");
+}
+
+//@ like: c12_handler_read_size_arbitrary
+#[kani::proof]
+fn c12_handler_read_data_arbitrary() {
+    let n: usize = kani::any();
+    kani::assume(n > 0);
+    c07_handler_case(Dechunker::Chunk(n), false);
+    kani::cover!(true, "reached");
+}
+
+//@ like: c12_handler_read_size_arbitrary
+#[kani::proof]
+fn c12_handler_expect_crlf_arbitrary() {
+    c07_handler_case(Dechunker::CrLf, false);
+    kani::cover!(true, "reached");
+}
+
+//@ like: c12_handler_read_size_arbitrary
+#[kani::proof]
+fn c12_handler_trailer_or_ended_arbitrary() {
+    c07_handler_case(Dechunker::Ending, false);
+    kani::cover!(true, "reached");
+}
+
+//@ like: c12_handler_read_size_arbitrary
+#[kani::proof]
+fn c12_handler_trailer_arbitrary() {
+    c07_handler_case(Dechunker::Trailer, false);
+    kani::cover!(true, "reached");
 }
